@@ -394,3 +394,82 @@ def run(facts, rep, modules=SCOPE_MODULES):
             rep.ok("R-DEPEND(C)", p, "out-parameter(s) {%s} written before every read" % ", ".join(n_ for _, n_ in outs),
                    facts.loc(p))
     return n
+
+
+def run_inplace_order(facts, rep, modules=SCOPE_MODULES):
+    """R-DEPEND(order) [N]: an in-place loop `x[st(i)] = f(x[ld(i)], ..)` must not read a position an EARLIER iteration of
+    the same loop has already overwritten.  With st(i) = c*i + a, ld(i) = c*i + b (c = +-1 after accounting for `.rev()`),
+    iteration i+k loads what iteration i stored iff c*k = a - b for some k >= 1, i.e. iff the store runs ahead of the load in
+    the direction of travel.  Shifting words upward must walk downward and vice versa; otherwise the first block is smeared
+    over the rest (the multi-word shifts, and through them the quotient of divide_uint, are wrong for 3 or more words)."""
+    from r_slotmod import Sym, padd, pmul, pconst, patom, pshow, atoms_of
+    R = "R-DEPEND(order)"
+    rep.rule(R, "no in-place word loop reads a position an earlier iteration of the same loop has overwritten")
+    n = 0
+    for p in sorted(facts.hir):
+        it = facts.items.get(p)
+        if not it or it.get("module") not in modules or it.get("kind") == "test":
+            continue
+        body = facts.hir[p]
+        sym = None
+        k_s = 0
+        for L in walk(body):
+            if L.get("k") != "For" or L["pat"].get("k") != "PBind":
+                continue
+            itx = strip(L["iter"])
+            rev = 1
+            while itx.get("k") == "MCall" and itx.get("name") in ("rev", "into_iter", "iter"):
+                if itx["name"] == "rev":
+                    rev = -rev
+                itx = strip(itx["recv"])
+            if not (itx.get("k") == "Struct" and "ops::Range" in itx.get("path", "")):
+                continue
+            sym = sym or Sym(facts, body)
+            iv = "%s#%d" % (L["pat"]["name"], L["pat"]["lid"])
+            if L["pat"]["lid"] not in sym.loopvars:
+                sym.loopvars[L["pat"]["lid"]] = iv
+            for st in walk(L["body"]):
+                if st.get("k") not in ("Assign", "AssignOp") or strip(st["lhs"]).get("k") != "Index":
+                    continue
+                lhs = strip(st["lhs"])
+                rl = root_local(lhs["e"])
+                if not rl or strip(lhs["i"]).get("k") == "Struct":
+                    continue
+                ps = sym.poly(lhs["i"])
+                if not isinstance(ps, dict) or iv not in atoms_of(ps):
+                    continue
+                cs = [c for m, c in ps.items() if m == (iv,)]
+                if len(cs) != 1 or abs(cs[0]) != 1 or any(iv in m and m != (iv,) for m in ps):
+                    continue
+                c = cs[0] * rev
+                loads = [y for y in walk(st["rhs"]) if y.get("k") == "Index" and (root_local(y["e"]) or (None,))[0] == rl[0]
+                         and strip(y["i"]).get("k") != "Struct"]
+                for y in loads:
+                    pl = sym.poly(y["i"])
+                    if not isinstance(pl, dict):
+                        continue
+                    cl = [cc for m, cc in pl.items() if m == (iv,)]
+                    if len(cl) != 1 or cl[0] != cs[0]:
+                        continue
+                    n += 1
+                    rep.fn(p)
+                    delta = padd(ps, pl, -1)                 # store index - load index (free of i)
+                    key = "%s/%s#%d" % (p, rl[1], k_s)
+                    k_s += 1
+                    ahead = pmul(delta, pconst(c))           # > 0: the store runs ahead of the load in the direction of travel
+                    if not ahead:
+                        rep.ok(R, key, "`%s` is read and written at the same index" % rl[1], facts.loc(p, st), nontrivial=False)
+                    elif all(cc <= 0 for cc in ahead.values()):
+                        rep.ok(R, key, "`%s[%s]` is written from `%s[%s]`, which no earlier iteration has written" %
+                               (rl[1], pshow(ps), rl[1], pshow(pl)), facts.loc(p, st),
+                               sample={"function": p, "store": pshow(ps), "load": pshow(pl)})
+                    elif all(cc >= 0 for cc in ahead.values()):
+                        rep.violation(R, key, "`%s[%s]` is written from `%s[%s]`, a position that an earlier iteration of the "
+                                      "same loop has already overwritten (the store runs %s ahead of the load in the direction "
+                                      "the loop travels): the leading block is smeared over the rest whenever the loop is "
+                                      "longer than that distance" % (rl[1], pshow(ps), rl[1], pshow(pl), pshow(ahead)),
+                                      facts.loc(p, st))
+                    else:
+                        rep.unresolved(R, key, "distance %s between store and load has no definite sign" % pshow(delta),
+                                       facts.loc(p, st))
+    return n
